@@ -42,7 +42,7 @@ REAL_STUB = {
 EXPECTED_PROBES = ["probe_frame_fragmented", "probe_frames_coalesced", "probe_undefined_transported", "probe_proxy_call", "probe_dict_set_get",
                    "probe_remote_fn_definition", "probe_burst", "probe_big_response", "probe_nested_list", "probe_dictionary_value", "probe_server_error_last",
                    "probe_same_text_after_remote_set", "probe_unencodable_request_in_burst", "probe_equal_text_of_different_kinds",
-                   "probe_second_connection_reads_during_a_call", "probe_answer_is_a_snapshot_while_another_connection_amends_the_value", "probe_response_above_16MiB",
+                   "probe_second_connection_reads_during_a_call", "probe_answer_is_a_snapshot_while_another_connection_amends_the_value", "probe_set_returned_then_read_through_another_connection", "probe_multi_line_programs_from_two_connections", "probe_response_above_16MiB",
                    "probe_remote_definition_of_a_function_used_locally_first", "probe_chain_backend", "probe_unbound_symbol", "net_stall",
                    "probe_client_connects_during_a_call", "probe_server_calls_client", "probe_second_handle_by_address_closed"]
 WALL_CAP = {"quick": 400, "thorough": 3600}
@@ -218,7 +218,7 @@ def scenario(ch, cfg):
         cl(f"f::.cli({PORT})")
         for i in range(nops):
             last = i == nops - 1
-            k = ch.weighted([6, 4, 4, 4, 2, 2, 2, 2, 2, 1 if last else 0, 2, 1, 1, 1, 2, 1, 1], "op")
+            k = ch.weighted([6, 4, 4, 4, 2, 2, 2, 2, 2, 1 if last else 0, 2, 1, 1, 1, 2, 1, 1, 1, 1], "op")
             if k == 0:      # f("expr")
                 m = ch.weighted([5, 2, 2, 1, 1, 1], "expr")
                 if m == 0:
@@ -521,6 +521,81 @@ def scenario(ch, cfg):
                 if res2.get("v") != want2 and not violations:
                     viol("C13:value-mismatch:amend-from-second-connection", f"second connection f(\"{amend}\") gave {str(res2.get('v'))[:120]}; "
                          f"the server interpreter gives {str(want2)[:120]}")
+            elif k == 17:
+                # a remote dictionary set that has RETURNED is stored: whoever asks the server afterwards - here another
+                # connection - reads the new value ("remote-dictionary get/set ... store values that match what the same
+                # operation yields locally on the server")
+                stats["probe_set_returned_then_read_through_another_connection"] += 1
+                if not state["dict"]:
+                    cl("d::.clid(f)")
+                    state["dict"] = True
+                if "D" not in state:
+                    from sim.klnode import Node
+                    state["D"] = Node(w, net, "D")
+                    state["D"].klong(f"f::.cli({PORT})")
+                    state["D"].klong("d::.clid(f)")
+                D = state["D"]
+                big = ch.draw(3, "xset.big") == 0
+                lit = ("!4000" if big else str(9000 + i))        # (a large value takes a while on the wire)
+                twin(f"xv::{lit}")
+                both("dict-set", f"d,:xv,,{lit};1", lambda: 1)
+                res2 = {}
+
+                def reader():
+                    try:
+                        res2["v"] = ("ok", canon(D.klong("d?:xv")))
+                    except BaseException as e:   # noqa
+                        if isinstance(e, SystemExit):
+                            raise
+                        res2["v"] = ("exc", type(e).__name__)
+                g = w.spawn(f"reader{i}", reader)
+                w.block_until(lambda: g.done, "reader.join")
+                want2 = ("ok", canon(twin("xv")))
+                if res2.get("v") != want2 and not violations and not state.get("client_exc"):
+                    viol("C13:value-mismatch:set-returned-but-another-connection-reads-the-old-value",
+                         f"d,:xv,,{lit} had returned; a second connection's d?:xv then gave {str(res2.get('v'))[:100]}; the server's xv is {str(want2)[:100]}")
+            elif k == 18:
+                # a program of several lines is ONE remote evaluation: two connections send such programs over the same variables
+                # at the same time, each must get what its program yields on the server when evaluated on its own
+                stats["probe_multi_line_programs_from_two_connections"] += 1
+                if "D" not in state:
+                    from sim.klnode import Node
+                    state["D"] = Node(w, net, "D")
+                    state["D"].klong(f"f::.cli({PORT})")
+                    state["D"].klong("d::.clid(f)")
+                D = state["D"]
+                va, vb = 10 + i, 500 + i
+                sep = ch.pick(["\n", "\n\n", ";\n"], "mlsep")
+                prog = lambda v: sep.join([f"mp::{v}", f"mq::{v}", "yieldfn(0)", f"mr::{v}", "mp+mq+mr"])   # noqa: E731
+                res2 = {}
+
+                def other():
+                    try:
+                        res2["v"] = ("ok", canon(D.klong('f("' + prog(vb) + '")')))
+                    except BaseException as e:   # noqa
+                        if isinstance(e, SystemExit):
+                            raise
+                        res2["v"] = ("exc", type(e).__name__)
+                g = w.spawn(f"other{i}", other)
+                both("multi-line-program", 'f("' + prog(va) + '")', lambda: twin(prog(va)))
+                w.block_until(lambda: g.done, "other.join")
+                want2 = ("ok", canon(twin(prog(vb))))
+                if res2.get("v") != want2 and not violations and not state.get("client_exc"):
+                    viol("C13:value-mismatch:multi-line-program-from-second-connection",
+                         f"two connections sent multi-line programs at the same time; the second got {str(res2.get('v'))[:100]}, on the server alone it yields {str(want2)[:100]}")
+                # whichever ran last: the three variables belong to one program
+                fin = both_free = None
+                if not violations and not state.get("client_exc"):
+                    try:
+                        fin = canon(cl('f("mp,mq,mr")'))
+                    except BaseException as e:   # noqa
+                        if isinstance(e, SystemExit):
+                            raise
+                        state["client_exc"] = True
+                    if fin is not None and fin not in (canon(twin(f"[{va} {va} {va}]")), canon(twin(f"[{vb} {vb} {vb}]"))):
+                        viol("C13:value-mismatch:multi-line-programs-interleaved", f"after two multi-line programs the server's mp,mq,mr is {str(fin)[:100]}")
+                    if fin == canon(twin(f"[{va} {va} {va}]")):
+                        twin(prog(va))
             elif k == 15:   # a second handle opened by address in the same client, used and closed: every handle is a connection of its own
                 stats["probe_second_handle_by_address_closed"] += 1
                 both("second-handle-open", f"g{i}::.cli({PORT});1", lambda: 1)
